@@ -458,7 +458,29 @@ func (e *Exec) execInstr(fr *Frame, b *ssa.BasicBlock, ins ssa.Instruction, st *
 			fr.regs[x] = e.freshSV(x.Type(), "next", st.reach, false)
 			e.note("map range abstracted")
 		}
-	case *ssa.Lookup, *ssa.MakeMap, *ssa.MapUpdate, *ssa.Go, *ssa.Defer, *ssa.Send, *ssa.Select, *ssa.MakeChan:
+	case *ssa.Select:
+		// a select picks any of its cases (all arrival orders are covered); received values are arbitrary messages
+		// that satisfy the channel's `chan T assumes` clauses. Ghost: selected() = index of the chosen case.
+		e.note("select abstracted: nondeterministic choice among its cases")
+		tv := e.freshSV(x.Type(), "select", st.reach, false).(*TupleV)
+		idx := scal(tv.Elems[0])
+		hi := int64(len(x.States))
+		lo := int64(0)
+		if !x.Blocking {
+			lo = -1
+		}
+		e.assume(and(le(intLit(lo), idx), lt(idx, intLit(hi))))
+		st.ghost["$selected"] = intSV(idx)
+		ghostTypes["$selected"] = types.Typ[types.Int]
+		k := 2
+		for _, s := range x.States {
+			if s.Dir == types.RecvOnly {
+				e.chanAssume(fr, st, s.Chan.Type().Underlying().(*types.Chan).Elem(), tv.Elems[k])
+				k++
+			}
+		}
+		fr.regs[x] = tv
+	case *ssa.Lookup, *ssa.MakeMap, *ssa.MapUpdate, *ssa.Go, *ssa.Defer, *ssa.Send, *ssa.MakeChan:
 		e.note(fmt.Sprintf("abstracted instruction %T", ins))
 		if v, ok := ins.(ssa.Value); ok {
 			fr.regs[v] = e.freshSV(v.Type(), "abs", st.reach, false)
@@ -510,6 +532,11 @@ func (e *Exec) unop(fr *Frame, st *BState, x *ssa.UnOp) SV {
 	case token.MUL: // load
 		p := e.val(fr, x.X).(*PtrV)
 		e.nilCheck(st, p, x.Pos())
+		if p.LV != nil && p.LV.Alloc != nil && len(p.LV.Path) == 0 && volatileCell(p.LV.Alloc) {
+			// a variable that a goroutine started by this function assigns: any value may be read
+			e.note("variable " + p.LV.Alloc.Comment + " is written by a goroutine: every read yields an arbitrary value")
+			return e.freshSV(x.Type(), "volatile."+p.LV.Alloc.Comment, st.reach, false)
+		}
 		return e.readLV(st, p, x.Type())
 	case token.NOT:
 		return &Scalar{T: not(scal(e.val(fr, x.X))), Ty: x.Type()}
